@@ -1,4 +1,4 @@
-import Litep2pVerif.Proofs.ReqResp.Ledger
+import Litep2pVerif.Proofs.ReqResp.Final
 /-!
 # C13 — Every request gets exactly one terminal outcome with the matching payload
 
@@ -7,6 +7,9 @@ Property theorems only (model: `Model/ReqResp/Ledger.lean`, lemmas: `Proofs/ReqR
 commands, transport events and future completions allowed by `Allowed` (fresh substream ids,
 substream events name the right peer, only existing futures complete, `Canceled` only after the
 cancel channel fired, a response only if the responder wrote it on that substream).
+Ghost history components of the state: `issued` (requests handed to the protocol), `opened`
+(substream id ↦ request, one entry per successful `open_substream`), `sentOn` (substreams on which a
+request future was started), `written` (the payload that future writes), `wire` (what the responder wrote on a substream), `log` (events).
 -/
 namespace Litep2pVerif.Props.C13
 open Litep2pVerif Litep2pVerif.ReqResp
@@ -37,8 +40,8 @@ theorem cancel_effect (s : State) (rid : Rid) :
 /-- Non-vacuity: a cancel before the substream is open is ignored, after it it takes effect. -/
 example :
     let s0 := [Input.connectionEstablished 1 (fun _ => .error .closed),
-      .send 1 ⟨3, 0⟩ .reject (.ok ()) (.ok 0)].foldl step (init none)
-    let s1 := step s0 (.outboundSubstream 1 0)
+      .send 1 ⟨⟨3, 0⟩, none⟩ .reject (.ok ()) (.ok 0)].foldl step (init none)
+    let s1 := step s0 (.outboundSubstream 1 0 none)
     (step s0 (.cancel 0)).cancelSent = [] ∧ (step s1 (.cancel 0)).cancelSent = [0] := by decide
 
 /-- **At most one terminal event.** In every reachable state, every request id has at most one
@@ -49,8 +52,8 @@ theorem at_most_one_terminal (m : Option Nat) (s : State) (h : Reach m s) (r : R
 
 /-- Non-vacuity: a request answered by the responder, then the connection closes: one event. -/
 example :
-    let s := [Input.connectionEstablished 1 (fun _ => .error .closed), .send 1 ⟨3, 0⟩ .reject (.ok ()) (.ok 0),
-      .outboundSubstream 1 0, .responderWrites 0 ⟨2, 9⟩, .futureDone ⟨1, 0, 0⟩ (.response ⟨2, 9⟩),
+    let s := [Input.connectionEstablished 1 (fun _ => .error .closed), .send 1 ⟨⟨3, 0⟩, none⟩ .reject (.ok ()) (.ok 0),
+      .outboundSubstream 1 0 none, .responderWrites 0 ⟨2, 9⟩, .futureDone ⟨1, 0, 0⟩ (.response ⟨2, 9⟩),
       .connectionClosed 1].foldl step (init none)
     terminals s.log 0 = 1 ∧ s.log = [.responseReceived 1 0 ⟨2, 9⟩] := by decide
 
@@ -73,91 +76,143 @@ theorem request_located (m : Option Nat) (s : State) (h : Reach m s) (r : Rid) :
 /-- Non-vacuity (§8-k): three requests while the peer is being dialed are all queued, and all fail
 once the dial fails. -/
 example :
-    let s := [Input.send 1 ⟨3, 0⟩ .dial (.ok ()) (.error .noPeer), .send 1 ⟨4, 1⟩ .dial (.ok ()) (.error .noPeer),
-      .send 1 ⟨5, 2⟩ .dial (.ok ()) (.error .noPeer)].foldl step (init none)
+    let s := [Input.send 1 ⟨⟨3, 0⟩, none⟩ .dial (.ok ()) (.error .noPeer), .send 1 ⟨⟨4, 1⟩, none⟩ .dial (.ok ()) (.error .noPeer),
+      .send 1 ⟨⟨5, 2⟩, none⟩ .dial (.ok ()) (.error .noPeer)].foldl step (init none)
     (dialCount s 0, dialCount s 1, dialCount s 2) = (1, 1, 1) ∧
     (let s' := step s (.dialFailure 1); (terminals s'.log 0, terminals s'.log 1, terminals s'.log 2) = (1, 1, 1)) := by
   decide
 
-/-- **Exactly one at quiescence** (partial). Full statement: in every reachable state in which the
-environment owes nothing (`Quiescent`: no pending dial, no pending substream open, no request
-future), every issued request has exactly one terminal event unless a cancel took effect for it.
-Proved here under the extra hypothesis `Owned s` (every id in some `active` set is waited for by a
-pending substream or a request future). `Owned` holds in the initial state; the proof that every
-handler preserves it (which needs the freshness of substream ids and that a future is filed under the
-peer of its request) is not done. The oracle checks the full statement on every run. -/
-theorem exactly_one_at_quiescence_partial (m : Option Nat) (s : State) (h : Reach m s) (hq : Quiescent s)
-    (ho : Owned s) (r : Rid) (hi : issuedCount s r = 1) :
-    (terminals s.log r = 1 ∧ s.cancelDone.count r = 0) ∨
-    (terminals s.log r = 0 ∧ s.cancelDone.count r = 1 ∧ r ∈ s.cancelSent) := by
-  have i := reach_inv m s h
-  have h1 := i.ledger r
-  have h2 := quiescent_active_zero s hq ho r
-  have h3 : dialCount s r = 0 := by simp [dialCount, hq.1]
-  by_cases hc : s.cancelDone.count r = 0
-  · left; omega
-  · right
-    have : r ∈ s.cancelDone := List.count_pos_iff.mp (by omega)
-    exact ⟨by omega, by omega, i.cancelSub r this⟩
+/-- **Owner invariant.** In every reachable state the peers are registered once, and every request
+id in a peer's `active` set is waited for by a pending substream that was opened to that very peer or
+by a request future filed under that very peer (so a transport event or a future completion that
+settles it is still owed). -/
+theorem active_owned (m : Option Nat) (s : State) (h : Reach m s) :
+    (s.peers.map Prod.fst).Nodup ∧
+    ∀ e ∈ s.peers, ∀ r ∈ e.2.active,
+      (∃ o ∈ s.pendingOutbound, o.2.peer = e.1 ∧ o.2.rid = r) ∨
+      (∃ f ∈ s.pendingInbound, f.peer = e.1 ∧ f.rid = r) :=
+  let o := reach_own m s h
+  ⟨o.nodup, o.owned⟩
 
-/-- Non-vacuity: a quiescent, owned state with one failed and one silently cancelled request. -/
+/-- Non-vacuity: two requests to a connected peer, one waiting for its substream, one in flight. -/
 example :
-    let s := [Input.connectionEstablished 1 (fun _ => .error .closed), .send 1 ⟨3, 0⟩ .reject (.ok ()) (.ok 0),
-      .send 2 ⟨3, 1⟩ .reject (.ok ()) (.ok 1), .outboundSubstream 1 0, .cancel 0,
+    let s := [Input.connectionEstablished 1 (fun _ => .error .closed), .send 1 ⟨⟨3, 0⟩, none⟩ .reject (.ok ()) (.ok 0),
+      .send 1 ⟨⟨4, 1⟩, none⟩ .reject (.ok ()) (.ok 1), .outboundSubstream 1 0 none].foldl step (init none)
+    (s.peers.map fun e => (e.1, e.2.active)) = [(1, [1, 0])] ∧
+    s.pendingOutbound = [(1, ⟨1, 1, ⟨⟨4, 1⟩, none⟩⟩)] ∧ s.pendingInbound = [⟨1, 0, 0⟩] := by decide
+
+/-- **Exactly one at quiescence.** In every reachable state in which the environment owes nothing
+(`Quiescent`: no pending dial, no pending substream open, no request future), every issued request
+has exactly one terminal event, unless a cancel took effect for it (the cancel channel fired,
+`cancelSent`), in which case it has either exactly one terminal event or none and was finished by
+the cancel. In particular every request whose cancel channel never fired has exactly one. -/
+theorem exactly_one_at_quiescence (m : Option Nat) (s : State) (h : Reach m s) (hq : Quiescent s)
+    (r : Rid) (hi : issuedCount s r = 1) :
+    ((terminals s.log r = 1 ∧ s.cancelDone.count r = 0) ∨
+     (terminals s.log r = 0 ∧ s.cancelDone.count r = 1 ∧ r ∈ s.cancelSent)) ∧
+    (r ∉ s.cancelSent → terminals s.log r = 1) :=
+  reach_exactly_one m s h hq r hi
+
+/-- Non-vacuity: a quiescent state with one failed and one silently cancelled request. -/
+example :
+    let s := [Input.connectionEstablished 1 (fun _ => .error .closed), .send 1 ⟨⟨3, 0⟩, none⟩ .reject (.ok ()) (.ok 0),
+      .send 2 ⟨⟨3, 1⟩, none⟩ .reject (.ok ()) (.ok 1), .outboundSubstream 1 0 none, .cancel 0,
       .futureDone ⟨1, 0, 0⟩ (.error .canceled)].foldl step (init none)
     s.pendingDials = [] ∧ s.pendingOutbound = [] ∧ s.pendingInbound = [] ∧
-    (s.peers.all fun e => e.2.active.isEmpty) ∧ issuedCount s 0 = 1 ∧ issuedCount s 1 = 1 ∧
-    terminals s.log 0 = 0 ∧ s.cancelDone = [0] ∧ terminals s.log 1 = 1 := by decide
+    issuedCount s 0 = 1 ∧ issuedCount s 1 = 1 ∧
+    terminals s.log 0 = 0 ∧ s.cancelDone = [0] ∧ s.cancelSent = [0] ∧ terminals s.log 1 = 1 := by decide
 
-/-- **Responder sees each request once** (partial). In every reachable state a request id has at
-most one pending substream or request future (it is never written on two substreams at a time).
-The full statement (at most one substream ever, i.e. `sentOn` has at most one entry per id; each
-inbound id is handed to the user at most once) is checked on every run by the oracle but not proved. -/
-theorem responder_sees_once_partial (m : Option Nat) (s : State) (h : Reach m s) (r : Rid) :
-    outCount s r + futCount s r ≤ 1 := by
-  have := (reach_inv m s h).excl r
+/-- **Responder sees each request once.** In every reachable state, for every request id `r`:
+* outbound: at most one substream was ever opened for `r` (`opened` records every successful
+  `open_substream` with the request it was made for); a request future — which writes the request
+  once — was started at most once, and only on a substream that was opened for exactly this request
+  as it was issued; substream ids are never shared between requests; every started future writes
+  exactly one payload on its substream (`written`), namely the request's main payload, or its
+  fallback payload if the substream was negotiated with the request's fallback protocol;
+* inbound: `r` was handed to the user (`RequestReceived`) at most once, never while it is still
+  being read, inbound ids never collide with outbound request ids, and the user is asked for an
+  answer only to a request it has seen. -/
+theorem responder_sees_once (m : Option Nat) (s : State) (h : Reach m s) (r : Rid) :
+    (openedCount s r ≤ 1 ∧ outCount s r + sentCount s r ≤ openedCount s r ∧
+     (∀ o ∈ s.sentOn, o ∈ s.opened ∧ o.2 ∈ s.issued) ∧ (s.opened.map Prod.fst).Nodup ∧
+     s.written.map Prod.fst = s.sentOn.map Prod.fst ∧
+     (∀ w ∈ s.written, ∃ c fb, (w.1, c) ∈ s.sentOn ∧ w.2 = c.request.payloadFor fb)) ∧
+    (receivedCount s.log r + inReadCount s r + issuedCount s r ≤ 1 ∧
+     awaitCount s r ≤ receivedCount s.log r) := by
+  have hs := reach_sub m s h
+  have hb := reach_inb m s h
+  have hw := reach_wr m s h
+  refine ⟨⟨reach_opened_le_one m s h r, hs.sentCnt r,
+    fun o ho => ⟨hs.sentSub o ho, hs.openedIssued o (hs.sentSub o ho)⟩, hs.openedNodup, hw.keys, hw.ok⟩,
+    ?_, hb.await r⟩
+  have := hb.once r
   omega
 
-/-- Non-vacuity. -/
+/-- Non-vacuity: an outbound request written on its substream, an inbound request handed over. -/
 example :
-    let s := [Input.connectionEstablished 1 (fun _ => .error .closed), .send 1 ⟨3, 0⟩ .reject (.ok ()) (.ok 0),
-      .outboundSubstream 1 0].foldl step (init none)
-    outCount s 0 + futCount s 0 = 1 ∧ s.sentOn = [(0, ⟨1, 0, ⟨3, 0⟩⟩)] := by decide
+    let s := [Input.connectionEstablished 1 (fun _ => .error .closed), .send 1 ⟨⟨3, 0⟩, none⟩ .reject (.ok ()) (.ok 0),
+      .outboundSubstream 1 0 none, .inboundSubstream 1, .inboundRead ⟨1, 1⟩ (some ⟨5, 7⟩)].foldl step (init none)
+    openedCount s 0 = 1 ∧ sentCount s 0 = 1 ∧ s.sentOn = [(0, ⟨1, 0, ⟨⟨3, 0⟩, none⟩⟩)] ∧ s.opened = s.sentOn ∧
+    receivedCount s.log 1 = 1 ∧ awaitCount s 1 = 1 ∧ s.log = [.requestReceived 1 1 ⟨5, 7⟩] := by decide
 
-/-- **Response matches** (partial, one step). A `ResponseReceived` produced by the completion of a
-request future carries the id of that future and the payload the responder wrote on the future's
-substream (`Allowed` only lets a future complete with a response that is on its wire), and the
-future was created for that id on that substream by `on_outbound_substream`. The statement over
-whole histories (every `ResponseReceived` in the log has such a future) is not proved. -/
-theorem response_matches_partial (s : State) (f : Fut) (p : Payload)
-    (ha : Allowed s (.futureDone f (.response p))) :
-    (f.sid, p) ∈ s.wire ∧
-    ((step s (.futureDone f (.response p))).log = s.log ∨
-     (step s (.futureDone f (.response p))).log = s.log ++ [.responseReceived f.peer f.rid p]) := by
-  refine ⟨ha.2.2 p rfl, ?_⟩
-  simp only [step, onSubstreamEvent]
-  split
-  · exact Or.inl rfl
-  · split
-    · exact Or.inr rfl
-    · exact Or.inl rfl
-
-/-- Non-vacuity. -/
+/-- Non-vacuity (fallback): the substream is negotiated with the request's fallback protocol 7, the
+future writes the fallback payload; negotiated with another fallback protocol, the main payload. -/
 example :
-    let s := [Input.connectionEstablished 1 (fun _ => .error .closed), .send 1 ⟨3, 0⟩ .reject (.ok ()) (.ok 0),
-      .outboundSubstream 1 0, .responderWrites 0 ⟨2, 9⟩].foldl step (init none)
-    Allowed s (.futureDone ⟨1, 0, 0⟩ (.response ⟨2, 9⟩)) := by
-  refine ⟨by decide, by decide, ?_⟩
-  intro p hp
-  cases hp
-  decide
+    let s0 := [Input.connectionEstablished 1 (fun _ => .error .closed),
+      .send 1 ⟨⟨3, 0⟩, some (7, ⟨5, 1⟩)⟩ .reject (.ok ()) (.ok 0)].foldl step (init none)
+    (step s0 (.outboundSubstream 1 0 (some 7))).written = [(0, ⟨5, 1⟩)] ∧
+    (step s0 (.outboundSubstream 1 0 (some 8))).written = [(0, ⟨3, 0⟩)] ∧
+    (step s0 (.outboundSubstream 1 0 none)).written = [(0, ⟨3, 0⟩)] := by decide
+
+/-- **An inbound request is handed over exactly when it was read.** The completion of the read of
+an inbound request appends exactly one `RequestReceived` with the id and the bytes read if the read
+succeeded and the request is still registered with its connected peer; otherwise (read failure,
+connection closed in between) nothing is emitted. -/
+theorem inbound_delivered (s : State) (f : InFut) (request : Option Payload) :
+    (step s (.inboundRead f request)).log =
+      match alFind f.peer s.peers, request with
+      | some pc, some req => if f.rid ∈ pc.activeInbound then s.log ++ [.requestReceived f.peer f.rid req] else s.log
+      | _, _ => s.log :=
+  inboundRead_log s f request
+
+/-- Non-vacuity: delivered once; a failed read delivers nothing. -/
+example :
+    let s := [Input.connectionEstablished 1 (fun _ => .error .closed), .inboundSubstream 1].foldl step (init none)
+    (step s (.inboundRead ⟨1, 0⟩ (some ⟨5, 7⟩))).log = [.requestReceived 1 0 ⟨5, 7⟩] ∧
+    (step s (.inboundRead ⟨1, 0⟩ none)).log = [] := by decide
+
+/-- **Response matches.** In every reachable state, whenever `ResponseReceived{peer, rid, payload}`
+is in the log there is a substream `sid` such that: `sid` was opened for exactly this request
+(`(sid, ⟨peer, rid, req⟩) ∈ opened`, with `req` the payload the user issued under `rid`), the request
+future was started on it, the responder wrote `payload` on `sid` (`wire`), and `sid` is the only
+substream ever opened for `rid` and was opened for no other request. -/
+theorem response_matches (m : Option Nat) (s : State) (h : Reach m s) (p : Peer) (r : Rid) (pl : Payload)
+    (hm : Event.responseReceived p r pl ∈ s.log) :
+    ∃ sid req, (sid, (⟨p, r, req⟩ : Ctx)) ∈ s.opened ∧ (sid, (⟨p, r, req⟩ : Ctx)) ∈ s.sentOn ∧
+      (⟨p, r, req⟩ : Ctx) ∈ s.issued ∧ (sid, pl) ∈ s.wire ∧
+      (∀ o ∈ s.opened, o.2.rid = r → o = (sid, ⟨p, r, req⟩)) ∧
+      (∀ o ∈ s.opened, o.1 = sid → o = (sid, ⟨p, r, req⟩)) :=
+  reach_response_matches m s h p r pl hm
+
+/-- Non-vacuity: two requests answered in the opposite order; each response is the one written on
+the substream of its own request. -/
+example :
+    let s := [Input.connectionEstablished 1 (fun _ => .error .closed), .send 1 ⟨⟨3, 0⟩, none⟩ .reject (.ok ()) (.ok 0),
+      .send 1 ⟨⟨4, 1⟩, none⟩ .reject (.ok ()) (.ok 1), .outboundSubstream 1 0 none, .outboundSubstream 1 1 none,
+      .responderWrites 1 ⟨2, 9⟩, .futureDone ⟨1, 1, 1⟩ (.response ⟨2, 9⟩),
+      .responderWrites 0 ⟨6, 8⟩, .futureDone ⟨1, 0, 0⟩ (.response ⟨6, 8⟩)].foldl step (init none)
+    s.log = [.responseReceived 1 1 ⟨2, 9⟩, .responseReceived 1 0 ⟨6, 8⟩] ∧
+    s.opened = [(0, ⟨1, 0, ⟨⟨3, 0⟩, none⟩⟩), (1, ⟨1, 1, ⟨⟨4, 1⟩, none⟩⟩)] ∧ s.sentOn = s.opened ∧
+    s.wire = [(1, ⟨2, 9⟩), (0, ⟨6, 8⟩)] := by decide
 
 #print axioms inbound_bound
 #print axioms cancel_effect
 #print axioms at_most_one_terminal
 #print axioms request_located
-#print axioms exactly_one_at_quiescence_partial
-#print axioms responder_sees_once_partial
-#print axioms response_matches_partial
+#print axioms active_owned
+#print axioms exactly_one_at_quiescence
+#print axioms responder_sees_once
+#print axioms inbound_delivered
+#print axioms response_matches
 
 end Litep2pVerif.Props.C13
